@@ -30,6 +30,8 @@ ASSUMPTIONS = [
     "element-level enabled flags are static (the library publishes nothing when they are toggled)",
     "a BLOB is compared only within its definition epoch: a (re)definition carries no payload, so after one the client's BLOB is absent",
     "the state of a BLOB property is not compared for observers whose policy excludes setBLOBVector (control stream, snoopers)",
+    "nor for the network client when an update of a BLOB property was published while a (re)definition of it was still in flight: "
+    "definition and update travel on different connections and their relative arrival order is not a matter of fragmentation",
 ]
 
 SNOOPER_SPEC = {
@@ -100,7 +102,7 @@ def check_converge(case):
     st_ = None
     try:
         try:
-            st_ = stack.Stack(specs, case.get("frags"))
+            st_ = stack.Stack(specs, case.get("frags"), early=case.get("early", ()))
         except Failure:
             raise
         except Exception as exc:  # noqa
@@ -116,6 +118,14 @@ def check_converge(case):
         def blob_mode(dn, vn, en):
             d = [i for i, s in enumerate(specs) if s["name"] == dn][0]
             return "equal" if fresh.get((d, vn, en)) else "equal-or-absent"
+
+        state_race = set()  # (d, vec) of BLOB vectors updated while a redefinition of them was still in flight: the update travels
+        # on the BLOB connection, the definition on the control connection, and which one the client applies last is not
+        # determined by the fragmentation of either stream
+
+        def blob_state(dn, vn):
+            d = [i for i, s in enumerate(specs) if s["name"] == dn][0]
+            return (d, vn) not in state_race
 
         need_blob = {}  # (d, vec) -> offset in the BLOB connection's server output when the property was last (re)enabled
 
@@ -146,7 +156,7 @@ def check_converge(case):
         def verify(tag):
             try:
                 check_blob_republished()
-                stack.compare_views(dep, client, blob_mode, who="network-client")
+                stack.compare_views(dep, client, blob_mode, who="network-client", blob_state=blob_state)
                 stack.compare_views(dep, snoop, lambda *a: "equal-or-absent", who="snooping-client", only=snooped, blob_state=False)
                 check_wire(dep, bytes(st_.control.link.b_writer.all))
             except Failure as f:
@@ -169,6 +179,15 @@ def check_converge(case):
                 max_in_flight = max(max_in_flight, in_flight)
                 in_flight = 0
                 continue
+            if t == "republish_blob":
+                # "push what you hold" for one of the BLOB elements that currently hold a payload (if any)
+                cands = [(d_, vi, ei) for d_ in range(len(specs)) for vi, (g_, v_) in enumerate(dep.vectors[d_]) if v_["kind"] == "BLOB"
+                         for ei, e_ in enumerate(v_["elements"]) if getattr(dep.instance(d_, g_, v_), e_["attr"])._value is not None]
+                if not cands:
+                    continue
+                d_, vi, ei = cands[op["k"] % len(cands)]
+                op = {"op": "republish", "d": d_, "v": vi, "e": ei}
+                t = "republish"
             in_flight += 1
             try:
                 if t == "handshake":
@@ -177,6 +196,7 @@ def check_converge(case):
                     for d in range(len(specs)):
                         for g, v in dep.vectors[d]:
                             redef_pending.add((d, v["name"]))
+                            state_race.discard((d, v["name"]))
                             for e in v["elements"]:
                                 fresh[(d, v["name"], e["name"])] = False
                     labels.add("handshake")
@@ -197,6 +217,10 @@ def check_converge(case):
                     st_.in_loop(lambda: cvec.submit(), settle=False)
                     if v["kind"] == "BLOB":
                         fresh[(d, v["name"], en)] = (d, v["name"]) not in redef_pending
+                        if (d, v["name"]) in redef_pending:
+                            state_race.add((d, v["name"]))
+                        else:
+                            state_race.discard((d, v["name"]))
                     writes += 1
                     labels.add(f"client-write-{v['kind']}")
                 else:
@@ -206,6 +230,8 @@ def check_converge(case):
                     blob_off = len(st_.blob.link.b_writer.all)
                     lab = st_.in_loop(lambda: dep.apply(op), settle=False)
                     labels.add(lab.split("-")[0])
+                    if lab == "republish-BLOB":
+                        labels.add("republish-of-a-held-BLOB")
                     if t in ("venable", "genable") and op["on"]:
                         dd = op["d"] % len(specs)
                         for gg, vv in dep.vectors[dd]:
@@ -215,8 +241,15 @@ def check_converge(case):
                                 if t == "venable" or gg["attr"] == list(drivers.effective_groups(specs[dd]).values())[op["g"] % len(drivers.effective_groups(specs[dd]))]["attr"]:
                                     need_blob[(dd, vv["name"])] = blob_off
                                     labels.add("blob-property-reenabled")
+                    if t not in ("venable", "genable", "eenable") and v is not None and v["kind"] == "BLOB" and lab != "noop":
+                        # state / value publication of a BLOB vector
+                        if (d, v["name"]) in redef_pending:
+                            state_race.add((d, v["name"]))
+                        else:
+                            state_race.discard((d, v["name"]))
                     if t == "venable":
                         toggles += 1
+                        state_race.discard((d, v["name"]))
                         redef_pending.add((d, v["name"]))
                         for e in v["elements"]:
                             fresh[(d, v["name"], e["name"])] = False
@@ -225,9 +258,10 @@ def check_converge(case):
                         dd = op["d"] % len(specs)
                         for gg, vv in dep.vectors[dd]:
                             redef_pending.add((dd, vv["name"]))
+                            state_race.discard((dd, vv["name"]))
                             for e in vv["elements"]:
                                 fresh[(dd, vv["name"], e["name"])] = False
-                    elif v["kind"] == "BLOB" and t in ("assign", "set_value"):
+                    elif v["kind"] == "BLOB" and (t in ("assign", "set_value") or (t == "republish" and lab != "noop")):
                         e = v["elements"][op["e"] % len(v["elements"])]
                         fresh[(d, v["name"], e["name"])] = (d, v["name"]) not in redef_pending
             except Failure:
@@ -256,12 +290,14 @@ op_st = st.one_of(
     cwrite_st,
     st.just({"op": "settle"}), st.just({"op": "settle"}),
     st.just({"op": "handshake"}),
+    st.fixed_dictionaries({"op": st.just("republish_blob"), "k": st.integers(0, 7)}),
 )
 case_st = st.fixed_dictionaries(
     {
         "devices": drivers.deployment(max_devices=3).filter(lambda specs: all(drivers.spec_size_ok(s) for s in specs)),
         "frags": frags_st,
         "ops": st.lists(op_st, max_size=25),
+        "early": st.lists(st.integers(0, 2), max_size=2),
     }
 )
 
